@@ -212,7 +212,58 @@ func c17Gen(t *rapid.T) C17Case {
 	c.Params = c17GenParams(t)
 	c.Caps = mockstore.Caps{Label: rapid.IntRange(0, 15).Draw(t, "caps-label"), Line: rapid.IntRange(0, 15).Draw(t, "caps-line")}
 	layout := datagen.RapidLayout{T: t, Heavy: true, Comments: true, RawOK: true}
-	switch rapid.IntRange(0, 11).Draw(t, "origin") {
+	switch rapid.IntRange(0, 12).Draw(t, "origin") {
+	case 12:
+		// A template function that takes a pattern of its own (a regular expression, a layout, a
+		// time zone, a format) is given one that is broken - written in the query or taken from
+		// the log content - and is called again and again: record after record, twice in one
+		// template, in two stages. Whatever the first failure leaves behind meets the next call.
+		c.Origin = "template-call"
+		pat := func(l string) string {
+			return rapid.SampledFrom([]string{`"("`, `"[a-"`, `"a{2,1}"`, `"\\"`, `"(?P<x"`, `"*"`, `.a`, `.val`, `__line__`, `"a+"`, `"(.)"`}).Draw(t, l)
+		}
+		call := func(l string) string {
+			switch rapid.IntRange(0, 6).Draw(t, l+"-fn") {
+			case 0:
+				return "regexReplaceAll " + pat(l+"-re") + ` __line__ "x"`
+			case 1:
+				return "regexReplaceAllLiteral " + pat(l+"-re") + ` .a "${1}"`
+			case 2:
+				return "count " + pat(l+"-re") + " __line__"
+			case 3:
+				return "toDateInZone " + pat(l+"-layout") + " " + pat(l+"-zone") + " .a"
+			case 4:
+				return "toDate " + pat(l+"-layout") + " .val"
+			case 5:
+				return "printf " + pat(l+"-fmt") + " .a"
+			default:
+				return "unixToTime " + pat(l+"-num")
+			}
+		}
+		tmpl := "{{ " + call("tc0") + " }}"
+		if rapid.Bool().Draw(t, "tc-twice") {
+			tmpl += " {{ " + call("tc1") + " }}"
+		}
+		stage := "line_format `" + tmpl + "`"
+		if rapid.Bool().Draw(t, "tc-label-format") {
+			stage = "label_format out=`" + tmpl + "`"
+		}
+		q := "{} | " + stage
+		if rapid.IntRange(0, 2).Draw(t, "tc-second-stage") == 0 {
+			q += " | line_format `{{ " + call("tc2") + " }}`"
+		}
+		if rapid.Bool().Draw(t, "tc-metric") {
+			q = "count_over_time(" + q + " [1m])"
+		}
+		c.Query = gen.BS(q)
+		for len(c.Recs) < 2 {
+			c.Recs = append(c.Recs, model.Rec{TS: datagen.BaseTS + int64(len(c.Recs))*250e6, Line: gen.BS(rapid.SampledFrom([]string{"(", "[a-", "plain", "a{2,1}"}).Draw(t, "tc-line")), Labels: map[string]string{}})
+		}
+		for i := range c.Recs {
+			if rapid.Bool().Draw(t, "tc-has-a") {
+				c.Recs[i].Labels["a"] = rapid.SampledFrom([]string{"(", "[a-", "*", "x", "Nowhere/Land", "%!d", "2006-01-02"}).Draw(t, "tc-a")
+			}
+		}
 	case 10:
 		// The hand-written address scanner of the ip() line filter against address-like garbage.
 		c.Origin = "ipfilter"
